@@ -29,9 +29,12 @@ type C16Case struct {
 	Labels  []string `json:"labels"`  // label values written
 	Written []string `json:"written"` // key attribute lines written, in order ("name = value")
 	// key-level part
-	KeysA m.DepM `json:"keysA"`
-	KeysB m.DepM `json:"keysB"`
-	PermA []int  `json:"permA"` // permutation applied to KeysA's labels ++ attrs
+	// Nested puts the block one level down (outer { res ... { } }): schemas of nested blocks
+	// reach the features as copies of the caller's schema
+	Nested bool   `json:"nested,omitempty"`
+	KeysA  m.DepM `json:"keysA"`
+	KeysB  m.DepM `json:"keysB"`
+	PermA  []int  `json:"permA"` // permutation applied to KeysA's labels ++ attrs
 }
 
 var c16Vals = []cty.Value{cty.StringVal("aws"), cty.StringVal("az"), cty.StringVal("1"), cty.StringVal("true"), cty.NumberIntVal(1), cty.NumberIntVal(2), cty.True, cty.False}
@@ -254,6 +257,7 @@ func genC16(g gen.G) C16Case {
 		}
 	}
 	c.Block, c.Labels, c.Written = bl, labels, lines
+	c.Nested = g.Chance(35)
 	// key-level part
 	c.KeysA = genC16Keys(g, g.Int(0, 3), gen.Subset(g, []string{"k1", "k2", "k3", "k4"}, 60))
 	c.KeysB = genC16Keys(g, g.Int(0, 3), gen.Subset(g, []string{"k1", "k2", "k3", "k4"}, 60))
@@ -354,6 +358,11 @@ func checkC16(c C16Case) Result {
 	// ---------------- lookup / feature level
 	text, blank, _ := c.text()
 	root := m.BodyM{Blocks: map[string]m.BlockM{"res": c.Block}}
+	if c.Nested {
+		root = m.BodyM{Blocks: map[string]m.BlockM{"outer": {Body: &m.BodyM{Blocks: map[string]m.BlockM{"res": c.Block}}}}}
+		text = "outer {\n" + text + "}\n"
+		blank += len("outer {\n")
+	}
 	wm := m.WorldM{Paths: []m.PathM{{Path: "p0", Schema: &root, Validators: true, Files: []m.FileM{{Name: "main.tf", Text: text}}}}}
 	w, pi := SafeBuild(func() *world.World { return world.Build(wm) })
 	if pi != nil {
@@ -367,6 +376,14 @@ func checkC16(c C16Case) Result {
 		return r
 	}
 	blk := body.Blocks[0]
+	if c.Nested {
+		if blk.Body == nil || len(blk.Body.Blocks) != 1 {
+			r.Exclude("harness:unexpected-parse")
+			return r
+		}
+		blk = blk.Body.Blocks[0]
+		r.Class("nested-block")
+	}
 	sel := refmodel.Select(c.Block, blk)
 	if sel.Undetermined {
 		r.Exclude("dontcare:undetermined-selection")
@@ -486,7 +503,9 @@ func checkC16(c C16Case) Result {
 	}
 	// documentation links: exactly on the labels / attribute values that selected a body having a link
 	lres := Exec(w, d, Call{Kind: "links", Path: 0, File: "main.tf"})
-	if lres.Panic == nil && lres.Err == nil {
+	// (LinksInFile only looks at top-level blocks - "currently only block bodies have links
+	// associated" - so a nested block is not judged on links)
+	if lres.Panic == nil && lres.Err == nil && !c.Nested {
 		var got, want []string
 		for _, l := range lres.Val.([]lang.Link) {
 			got = append(got, fmt.Sprintf("%s@%d-%d", l.URI, l.Range.Start.Byte, l.Range.End.Byte))
